@@ -70,6 +70,9 @@ def write(here, prop, tier, seed, jobs, results, violations, known_hits, undecid
             entry["ignored_by_backend"] = r["messages_ignoring"][:5]
         if j.label == "bounded":
             bounded.append(entry)
+        elif r["status"].startswith("smt-"):
+            entry["note"] += " -- NOT FINISHED in this run (optional SMT proof); not counted"
+            bounded.append(entry)
         else:
             functions.append(entry)
             proof_obl += r["obligations"]
